@@ -1,6 +1,8 @@
 package main
 
 import (
+	"io"
+	"github.com/datastax/go-cassandra-native-protocol/compression/lz4"
 	"encoding/binary"
 	"bytes"
 	"encoding/hex"
@@ -98,9 +100,32 @@ func runC20(res *lp.Result) {
 			bad("compression flagged for STARTUP/OPTIONS/READY")
 		}
 	}
+	lz4Codec := frame.NewRawCodecWithCompression(lz4.Compressor{})
 	roundTrip := func(f *frame.Frame, trace string) {
 		if f.Header.Flags.Contains(primitive.HeaderFlagCompressed) {
-			return // no compressor configured in this mode; compression round trips are C01/C08
+			// with the flag on, the frame goes through a codec that has a compressor — one that is IN USE: an earlier encode of the same
+			// frame went to a destination that fails after a few bytes, another was refused for its version
+			bad := f.DeepCopy()
+			lz4Codec.EncodeFrame(bad, &failingWriter{left: 3})
+			bad = f.DeepCopy()
+			bad.Header.Version = primitive.ProtocolVersion(1)
+			lz4Codec.EncodeFrame(bad, io.Discard)
+			cp := f.DeepCopy()
+			var buf bytes.Buffer
+			if err := lz4Codec.EncodeFrame(cp, &buf); err != nil {
+				res.Add(lp.Finding{Kind: "violation", What: "frame flagged for compression no longer encodes after applicable mutators: " + err.Error(), Input: trace})
+				return
+			}
+			d, err := lz4Codec.DecodeFrame(bytes.NewReader(buf.Bytes()))
+			if err != nil {
+				res.Add(lp.Finding{Kind: "violation", What: "frame flagged for compression does not round-trip after applicable mutators (the codec had failed encodes before): " + firstWords(err.Error()), Input: trace})
+				return
+			}
+			if d.Header.Flags != cp.Header.Flags || (d.Body.TracingId == nil) != (cp.Body.TracingId == nil) ||
+				len(d.Body.CustomPayload) != len(cp.Body.CustomPayload) || len(d.Body.Warnings) != len(cp.Body.Warnings) {
+				res.Add(lp.Finding{Kind: "violation", What: "flags/body parts differ after a compressed round trip following applicable mutators", Input: trace, Impl: showFrameC20(d)})
+			}
+			return
 		}
 		cp := f.DeepCopy()
 		var buf bytes.Buffer
@@ -316,4 +341,17 @@ func runC20(res *lp.Result) {
 			res.Add(lp.Finding{Kind: "disagreement", What: "model/implementation differ on: " + lines[i], Input: lines[i], Impl: expect[i], Model: a})
 		}
 	}
+}
+
+// failingWriter accepts a few bytes and then fails (a connection that breaks while a frame is written)
+type failingWriter struct{ left int }
+
+func (w *failingWriter) Write(p []byte) (int, error) {
+	if len(p) <= w.left {
+		w.left -= len(p)
+		return len(p), nil
+	}
+	n := w.left
+	w.left = 0
+	return n, fmt.Errorf("connection reset by peer")
 }
